@@ -11,6 +11,8 @@ import (
 	"sort"
 	"strings"
 
+	rt "github.com/DemoHn/Zn/pkg/runtime"
+
 	"verifharness/internal/pool"
 	"verifharness/internal/zn"
 )
@@ -28,6 +30,7 @@ type modCase struct {
 	Extra string     `json:"extra"` // extra statements appended to the main file (probe programs)
 	Sel   map[string][]string `json:"sel"` // selective import lists for main: module -> exported names
 	Names map[string]string   `json:"names"` // module symbol -> the name written in 导入“…” (segments separated by -); default: modName
+	Trace bool                `json:"trace"` // record the loader's events (script-frame pushes / pops, body markers, outcome) for Trace_ZnModule
 	Repeat int                `json:"repeat"` // C11: execute the main file this many times (fresh interpreter each time) and report the distinct outcomes
 }
 
@@ -155,7 +158,70 @@ func handleModule(raw json.RawMessage) interface{} {
 	sb.WriteString(c.Extra)
 	mainPath := filepath.Join(dir, "主.zn")
 	os.WriteFile(mainPath, []byte(sb.String()), 0644)
+	var mevs []map[string]interface{}
+	if c.Trace {
+		symOf := func(name string) string {
+			for k := range modName {
+				if c.nameOf(k) == name {
+					return k
+				}
+			}
+			return "main"
+		}
+		var fstack []string
+		rt.VerifHook = func(vm *rt.VM, ev string, name string, n int) {
+			switch ev {
+			case "push":
+				if n == int(rt.CALL_TYPE_SCRIPT) {
+					m := "main"
+					if cm := vm.GetCurrentModule(); cm != nil && len(fstack) > 0 {
+						m = symOf(cm.GetName())
+					}
+					fstack = append(fstack, m)
+					mevs = append(mevs, map[string]interface{}{"e": "begin", "m": m})
+				} else {
+					fstack = append(fstack, "")
+				}
+			case "pop":
+				if k := len(fstack) - 1; k >= 0 {
+					if fstack[k] != "" {
+						mevs = append(mevs, map[string]interface{}{"e": "end", "m": fstack[k]})
+					}
+					fstack = fstack[:k]
+				}
+			}
+		}
+		zn.OnDisplay = func(first string) {
+			if strings.HasPrefix(first, "body-") {
+				mevs = append(mevs, map[string]interface{}{"e": "body", "m": first[5:]})
+			}
+		}
+		defer func() { rt.VerifHook = nil; zn.OnDisplay = nil }()
+	}
 	o := zn.RunFile(mainPath, nil)
+	if c.Trace {
+		rt.VerifHook = nil
+		zn.OnDisplay = nil
+		res := "done"
+		if o.Obs == "error" {
+			switch o.Code {
+			case 63:
+				res = "circular"
+			case 60:
+				res = "missing"
+			default:
+				res = "error"
+			}
+			// frames popped while the error unwinds are not loads that completed
+			for len(mevs) > 0 && mevs[len(mevs)-1]["e"] == "end" {
+				mevs = mevs[:len(mevs)-1]
+			}
+		} else if o.Obs != "value" {
+			res = o.Obs
+		}
+		mevs = append(mevs, map[string]interface{}{"e": "result", "r": res})
+		return map[string]interface{}{"obs": o.Obs, "display": o.Display, "code": o.Code, "msg": lastLine(o.Msg), "val": o.Val, "main": sb.String(), "mevs": mevs}
+	}
 	if c.Repeat > 1 {
 		seen := map[string]int{}
 		var firsts []map[string]interface{}
